@@ -721,6 +721,10 @@ func run(tapeJSON json.RawMessage, res *core.Result) {
 			out = "fail"
 		}
 		seq = append(seq, fmt.Sprintf("%s:%s:%s:%d", r.Op, strings.SplitN(r.SPN, "/", 2)[0], out, nreq))
+		if r.Panic != "" {
+			// whatever the operation was owed, it has to end with a result or an error
+			viol("operation-panicked|"+r.Op+"|"+strings.SplitN(r.Panic, ":", 2)[0], r)
+		}
 		if r.Return-r.Invoke > int64(time.Hour) {
 			viol("operation-took-more-than-a-simulated-hour|"+r.Op, r)
 		}
